@@ -16,7 +16,7 @@ func init() {
 	core.Register(&core.Prop{
 		ID:    "C03",
 		Level: "exploration",
-		Rule: "histories of 2..40 renders on ONE shared engine over a pool of 40 generated templates (every tag; assign/capture of names that shadow bindings; sort, reverse, concat, uniq, compact, map, sort_natural applied to []any-typed bindings with spare capacity; cycles; loops ended by break; templates that fail part-way; application tags that call Context.Set, InnerString, RenderChildren and ExpandTagArg) x a pool of 12 binding environments x 4 entry points. Before the history every (template, bindings) pair is rendered solo on a fresh engine; in the history every step must reproduce its solo result, a deep snapshot of the bindings (maps by key, slices up to their capacity, struct fields, pointers, Drops) must be unchanged after every step, a reflective snapshot of every Template.GetRoot() tree (including closure identities) must be unchanged at the end, and a probe tag at the start of a render must see exactly the caller's variables. Non-trivial = a history with at least one repeated template after an intervening different render; distinct = distinct histories.",
+		Rule: "histories of 2..40 renders on ONE shared engine over a pool of 40 generated templates (every tag; assign/capture of names that shadow bindings; sort, reverse, concat, uniq, compact, map, sort_natural applied to []any-typed bindings with spare capacity; cycles; loops ended by break; templates that fail part-way; application tags that call Context.Set, InnerString, RenderChildren and ExpandTagArg) x a pool of 12 binding environments x 4 entry points; every fourth history on engines configured with custom delimiters (templates re-spelled). Before the history every (template, bindings) pair is rendered solo on a fresh engine; in the history every step must reproduce its solo result, a deep snapshot of the bindings (maps by key, slices up to their capacity, struct fields, pointers, Drops) must be unchanged after every step, a reflective snapshot of every Template.GetRoot() tree (including closure identities) must be unchanged at the end, and a probe tag at the start of a render must see exactly the caller's variables. Non-trivial = a history with at least one repeated template after an intervening different render; distinct = distinct histories.",
 		Exhaustive: func(string) bool { return false },
 		Assumptions: []string{
 			"state hidden inside compiled closures cannot be snapshotted; it is caught behaviourally by the solo-vs-history comparison",
@@ -75,14 +75,29 @@ var c03Fixed = []string{
 	// application tags (custom.go): Context.Set writes a variable of this render, never the caller's map
 	"{% xset spare = 'custom-shadow' %}{{ spare }}{% xset newvar = 5 %}{{ newvar }}{% xget newvar %}{% xset words = spare %}", "{% xwrap {{ n }} %}{% assign inwrap = 1 %}{{ spare | sort | first }}{% xset deep = words | first %}{% endxwrap %}{{ inwrap }}{{ deep }}",
 	"{% xbump hits %}{% xbump hits %}{{ hits }}{% xbump n %}{{ n }}{% xbump spare %}{{ spare }}", "{% xbump k %}{% for x in spare %}{% xbump loops %}{% endfor %}{{ loops }}{{ k }}",
+	"{% for r in recs %}{{ r.size }}{% xcard r %}{% endfor %}{{ recs[0].size }}{% xcard nothing %}{% xcard longrecs[3] %}", "{% xcard recs.first %}{% xcard recs.last %}{{ recs.last | size }}{{ incard }}",
 	"{% xtwice %}{% cycle 'a', 'b', 'c' %}{% assign tw = tw | append: 'x' %}{% endxtwice %}{{ tw }}", "{% xwhen spare contains 3 %}{% xset st = nil %}{% xset recs = 1 %}{% endxwhen %}{{ st }}{{ recs }}{% xecho {{ spare | reverse | join: ',' }} %}",
 	"{{ words | join: ',' | split: ',' | sort | last }}{{ words | first | append: '!' }}", "{% case spare.size %}{% when 4 %}{% assign four = true %}{% endcase %}{{ four }}{% unless four %}U{% endunless %}",
 }
 
+// c03Engine: the application tags of custom.go, and the partial that {% xcard %} renders.
+func c03Engine(delims *[4]string) *liquid.Engine {
+	e := liquid.NewEngine()
+	card := "[{{ name }}{{ k }} @ {{ n }}{% assign incard = 1 %}]"
+	if delims != nil {
+		e.Delims(delims[0], delims[1], delims[2], delims[3])
+		card, _ = respell(card, *delims)
+	}
+	RegisterCustom(e)
+	if _, err := e.ParseTemplateAndCache([]byte(card), "card.html", 1); err != nil {
+		panic(err)
+	}
+	return e
+}
+
 func runC03(c *core.Ctx) {
 	probeSeen := ""
-	pe := liquid.NewEngine()
-	RegisterCustom(pe)
+	pe := c03Engine(nil)
 	pe.RegisterTag("vprobe", func(ctx render.Context) (string, error) {
 		var ks []string
 		for k := range ctx.Bindings() {
@@ -99,8 +114,12 @@ func runC03(c *core.Ctx) {
 			continue
 		}
 		r := c.Rand(h)
-		shared := liquid.NewEngine()
-		RegisterCustom(shared)
+		// every fourth history runs on engines configured with custom delimiters, the templates re-spelled accordingly
+		var delims *[4]string
+		if h%4 == 3 {
+			delims = &[4]string{"<<", ">>", "<%", "%>"}
+		}
+		shared := c03Engine(delims)
 		// pools
 		var srcs []string
 		for len(srcs) < 40 {
@@ -114,6 +133,16 @@ func runC03(c *core.Ctx) {
 			f.MaxNodes = 10
 			g := gen.NewG(r, f, gen.StdEnv(r))
 			srcs = append(srcs, gen.DefaultStyle.Source(g.Program()))
+		}
+		if delims != nil {
+			for i, src := range srcs {
+				rs, toks := respell(src, *delims)
+				if !sameTokens(toks, c19Tokens(rs, *delims)) { // the template's own text collides with the delimiters
+					rs, _ = respell("{{ spare | sort | join: ',' }}{% assign n = 1 %}{% for x in words %}{{ x }}{% endfor %}", *delims)
+				}
+				srcs[i] = rs
+			}
+			c.Obs("histories_with_custom_delimiters", 1)
 		}
 		envs := c03Envs(r)
 		if !c.Begin(fmt.Sprintf("history %d (seed stream %d): templates=%q", h, h, srcs[:3])) {
@@ -138,8 +167,7 @@ func runC03(c *core.Ctx) {
 			if v, ok := solo[k]; ok {
 				return v
 			}
-			fresh := liquid.NewEngine()
-			RegisterCustom(fresh)
+			fresh := c03Engine(delims)
 			v := core.Run(fresh, srcs[ti], envs[bi])
 			c.Eval(1)
 			solo[k] = v
